@@ -10,7 +10,8 @@ def W0 : World :=
     nsp := fun p => if p.thr = 0 then 8 else 4
     defaultDsRings := fun _ => 2
     blocksBase := fun k => k == 3
-    zOk := fun _ => true }
+    zOk := fun _ => true
+    autoClass := fun _ t => t.base }
 
 /-- `set_thr 0; set_tmpl 0; set_exam 0; set_act 0; set_att 0; set_zoom 0; set_spimg 0` -/
 def baseConfig : List Op :=
@@ -85,6 +86,26 @@ def histFile : List Op :=
 /-- `set_randomly_place_scatter_points` after the scatter points were sampled -/
 def histRnd : List Op := [.setRndPlace false] ++ baseConfig ++ [.setUp, .process, .setRndPlace true, .setUp]
 
+/-- coverage round 4 — the automatic (-1) zoom factors: `set_image_downsample_factors` is never called -/
+def autoConfig : List Op :=
+  [.setThr 0, .setTemplate (W0.tmpl 0), .setExam 0, .setActivity (some 0), .setDensity (some 0)]
+/-- one object re-used with other attenuation images (in `W0` all attenuation images have the same voxel size and planes:
+    the class of the automatic factors depends on the template only), scatter-point image derived by `set_up` and by an
+    explicit `downsample_density_image_for_scatter_points` call -/
+def histAutoAtt : List Op :=
+  autoConfig ++ [.setUp, .process, .setDensity (some 3), .setUp, .process, .setDensityInPlace 1, .downsampleSp, .setActivity (some 1), .setUp]
+/-- KNOWN `scatter-setup:automatic-zoom-scatter-point-image-kept-after-template-change` -/
+def histAutoTmplKept : List Op := autoConfig ++ [.setUp, .process, .setTemplate (W0.tmpl 1), .setUp]
+/-- KNOWN `scatter-setup:automatic-zoom-factors-frozen-by-first-set-up` -/
+def histAutoFrozen : List Op :=
+  autoConfig ++ [.setUp, .process, .setTemplate (W0.tmpl 1), .setDensity (some 0), .setUp]
+
+theorem histAutoAtt_fresh : freshAfter W0 histAutoAtt = true := by decide
+theorem histAutoAtt_guarded : (runGuarded W0 init histAutoAtt).isSome = true := by decide
+theorem histAutoTmplKept_stale : staleAfter W0 histAutoTmplKept = true := by decide
+theorem histAutoFrozen_stale : staleAfter W0 histAutoFrozen = true := by decide
+theorem histAutoTmplKept_not_guarded : (runGuarded W0 init histAutoTmplKept).isSome = false := by decide
+
 /-- NOT the code: `set_activity_image_sptr` as it would be if `remove_cache_for_integrals_over_activity` returned early
     when the cache is disabled (mirroring the `if (!use_cache) return;` of `initialise_cache_…`) -/
 def setActivityLazyRemoval (a : Nat) (s : St) : St :=
@@ -139,6 +160,14 @@ theorem invalidationFailures_eq :
        ("downsample_images_to_scanner_size", .spImage), ("downsample_images_to_scanner_size", .scatt)] := by decide
 
 theorem setUpForcedFailures_eq : setUpForcedFailures setterTable = ["set_use_cache"] := by decide
+
+/-- with the default zoom factors the template setters (and `downsample_scanner`) additionally leave the scatter-point image
+    and the scatter points derived for the OLD template in place -/
+theorem invalidationFailuresAutoOnly_eq :
+    invalidationFailuresAutoOnly setterTable =
+      [("set_template_proj_data_info", .spImage), ("set_template_proj_data_info", .scatt),
+       ("set_template_proj_data_info(filename)", .spImage), ("set_template_proj_data_info(filename)", .scatt),
+       ("downsample_scanner", .spImage), ("downsample_scanner", .scatt)] := by decide
 
 /-- the rows of the table that pass both checks -/
 def goodRows : List String :=
